@@ -961,6 +961,96 @@ func TestC23(t *testing.T) {
 	}
 	c.Exhaustive("date-times within 14 h of each calendar boundary (pivots 49/50 and 68/69, year 0000/9999, century, month, leap day) x offsets +-00:00..14:30 x seconds/no seconds", tn)
 	c.Class("table:time-edges-x-offsets")
+	// length-of-length boundaries with real bodies: every boundary of the DER length form (0x7f/0x80, 0xff/0x100,
+	// 0xffff/0x10000, 0xfffff/0x100000, 0xffffff/0x1000000) and every power of two 2^7..2^24 (+-1, and a value inside
+	// the octave), encoded minimally and with 1..3 leading zero octets (and in five octets), body present in full
+	// and one byte short
+	{
+		const pad = 16
+		big := make([]byte, pad+1<<24+8+4)
+		var lens []int
+		seenL := map[int]bool{}
+		addL := func(v int) {
+			if v >= 0 && v <= 1<<24+4 && !seenL[v] {
+				seenL[v] = true
+				lens = append(lens, v)
+			}
+		}
+		for _, v := range []int{0, 1, 0x7e, 0x7f, 0x80, 0x81, 0xfe, 0xff, 0x100, 0x101, 0xfffe, 0xffff, 0x10000, 0x10001, 0xffffe, 0xfffff, 0x100000, 0x100001, 0xfffffe, 0xffffff, 0x1000000, 0x1000001} {
+			addL(v)
+		}
+		for k := uint(7); k <= 24; k++ {
+			addL(1<<k - 1)
+			addL(1 << k)
+			addL(1<<k + 1)
+			addL(1<<k + 1<<(k-1) + 5)
+		}
+		li := 0
+		for _, L := range lens {
+			li++
+			if !ev.Mine(li) {
+				continue
+			}
+			minOctets := 0 // long-form octets of the minimal encoding (0: short form)
+			if L >= 128 {
+				for v := L; v > 0; v >>= 8 {
+					minOctets++
+				}
+			}
+			for _, tag := range []byte{rc.TagOctetString, rc.TagSequence} {
+				for octets := 0; octets <= 5; octets++ {
+					if octets < minOctets || (octets == 0 && L >= 128) {
+						continue // cannot hold the value
+					}
+					if octets == 0 && minOctets != 0 {
+						continue
+					}
+					hdr := []byte{tag}
+					if octets == 0 {
+						hdr = append(hdr, byte(L))
+					} else {
+						hdr = append(hdr, 0x80|byte(octets))
+						for i := octets - 1; i >= 0; i-- {
+							hdr = append(hdr, byte(L>>(8*uint(i))))
+						}
+					}
+					copy(big[pad-len(hdr):pad], hdr)
+					for _, short := range []int{0, 1} {
+						if L-short < 0 {
+							continue
+						}
+						in := big[pad-len(hdr) : pad+L-short]
+						res := c23CheckAll(in, short == 0 && (L < 1<<20 || tag == rc.TagOctetString))
+						wantOK := short == 0 && octets == minOctets
+						if res.violation == "" {
+							// the table's own expectation, independent of ReadTLV: accepted iff minimal and complete
+							s := cryptobyte.String(in)
+							var body cryptobyte.String
+							if got := s.ReadASN1(&body, cbasn1.Tag(tag)); got != wantOK || (got && (len(body) != L || !s.Empty())) {
+								res.violation = fmt.Sprintf("ReadASN1 = %v (body %d bytes) for a %d-byte body with %d length octets (minimal: %d octets), %d body bytes present", got, len(body), L, octets, minOctets, L-short)
+							}
+						}
+						if res.violation != "" {
+							c.Violation(res.violation, "")
+							t.Fatalf("VF-VIOLATION: property=C23 %s; header %x, body length %d, present %d (length-of-length table)", res.violation, hdr, L, L-short)
+						}
+						cls := "minimal"
+						if octets != minOctets {
+							cls = fmt.Sprintf("%d-octets-for-%d", octets, minOctets)
+						}
+						if short == 1 {
+							cls += ",body-short"
+						}
+						c.Case(true, fmt.Sprintf("lenlen|%d|%d|%d|%d", L, octets, short, tag), "table:len-of-len:"+cls)
+					}
+				}
+				for i := range big[:pad] {
+					big[i] = 0
+				}
+			}
+		}
+		c.Exhaustive("body lengths at every DER length-form boundary and power of two up to 2^24 x 0..5 length octets x body complete/one short", len(lens))
+	}
 	c.Exhaustive("long-form length octets 81 xx / 82 00 xx / 82 01 xx / 83 00 00 xx / 84 00 00 01 xx with full and short content", 256*5*2)
 	for v := 0; v < 256; v++ {
 		for _, in := range [][]byte{{rc.TagBoolean, 1, byte(v)}, {0xa0, 3, rc.TagBoolean, 1, byte(v)}, {rc.TagBitString, 2, byte(v), 0xff}, {rc.TagBitString, 2, byte(v), 0x00}, {rc.TagBitString, 1, byte(v)}, {rc.TagOID, 1, byte(v)}, {rc.TagOID, 2, byte(v), 0x01}, {rc.TagInteger, 2, byte(v), 0x7f}, {rc.TagInteger, 2, byte(v), 0x80}} {
